@@ -50,6 +50,9 @@ type Case struct {
 	SQL     []string `json:"sql,omitempty"` // one per run
 	Err     string   `json:"err,omitempty"` // parse | ast | plan | process | string
 	ErrText string   `json:"err_text,omitempty"`
+	// --mode metricdb (C08): databases the statement is executed over (model/LogqlMetricExec.v)
+	Dbs   []XDB  `json:"dbs,omitempty"`
+	DbsML string `json:"dbs_ml,omitempty"`
 }
 
 // ---------------------------------------------------------------- AST -> Coq
@@ -319,7 +322,8 @@ func run(c *Case) {
 }
 
 func main() {
-	mode := flag.String("mode", "log", "log: log queries (C07/C13/C14); metric: metric queries (C08)")
+	mode := flag.String("mode", "log", "log: log queries (C07/C13/C14); metric: metric queries (C08); metricdb: metric queries with databases (C08)")
+	ndbs := flag.Int("dbs", 3, "databases per case (metricdb)")
 	f := hx.ParseFlags()
 	out := hx.OpenOut(f.Out)
 	defer out.Close()
@@ -330,11 +334,22 @@ func main() {
 				panic(err)
 			}
 			run(&c)
+			if len(c.Dbs) > 0 {
+				fillDBs(nil, &c, 0)
+			}
 			out.Put(c)
 		})
 		return
 	}
 	r := hx.Rand(f.Seed)
+	if *mode == "metricdb" {
+		for i := 0; i < f.N; i++ {
+			c := genMetricDB(r, i, *ndbs)
+			run(&c)
+			out.Put(c)
+		}
+		return
+	}
 	if *mode == "metric" {
 		for i := 0; i < f.N; i++ {
 			q, class := genMetricQuery(r)
